@@ -29,12 +29,16 @@ Proof.
     apply all_f_fset; auto. apply IHp; auto. eapply all_f_fget; eauto.
 Qed.
 
-Lemma inv_same_obs : forall t d r, Inv t d -> all_t wfi r -> t_seg r = [] ->
+Lemma upd_root_val : forall n p g, (forall i, n_val (g i) = n_val i) -> n_val (t_info (upd_t n p g)) = n_val (t_info n).
+Proof. destruct n, p; simpl; auto. Qed.
+
+Lemma inv_same_obs : forall t d r, Inv t d -> all_t wfi r -> t_seg r = [] -> n_val (t_info r) = None ->
   (forall q, kvr (obs_t r q) = kvr (obs_t (t_root t) q)) -> forall nid its,
   Inv {| t_root := r; t_len := t_len t; t_next := nid; t_iters := its |} d.
 Proof.
-  intros t d r HI W S O nid its. destruct HI as [Hwf Hhdr Hobs Hlen Hnd].
+  intros t d r HI W S HV O nid its. destruct HI as [Hwf Hhdr Hhv Hkey Hobs Hlen Hnd].
   constructor; simpl; auto.
+  { intros q Hq. pose proof (O q) as X. unfold kvr in X. inversion X as [[X1 X2 X3 X4]]. rewrite X1, X2. apply Hkey; auto. }
   intros q Hq. pose proof (O q) as X. unfold kvr in X. inversion X as [[X1 X2 X3 X4]]. rewrite X2, X3, X4. apply Hobs; auto.
 Qed.
 
@@ -53,23 +57,26 @@ Proof.
                    | None => ins_t fx (t_root t) kk true (t_next t)
                    end
       | None => (t_root t, [], t_next t) end) = (r1, p, nid) /\ all_t wfi r1 /\ t_seg r1 = [] /\
-      (forall q, obs_t r1 q = obs_t (t_root t) q)).
+      (forall q, obs_t r1 q = obs_t (t_root t) q) /\ n_val (t_info r1) = None).
   { destruct k as [kk|].
     - destruct (lookup (t_root t) kk true).
       + do 3 eexists. split; [reflexivity|]. destruct HI; auto.
       + destruct (ins_t fx (t_root t) kk true (t_next t)) as [[r1 p] nid] eqn:I. destruct Hk as [Hne Hnz].
         destruct (ins_ok fx _ _ (le_n _) _ _ _ _ _ _ (inv_wf _ _ HI) Hnz I) as [O1 [L1 W1]].
-        do 3 eexists. split; [reflexivity|]. split; auto. split; auto.
-        pose proof (inv_hdr _ _ HI) as Hh. destruct (t_root t) as [i0 s0 f0]. simpl in Hh. subst s0. eapply hdr_ins; eauto.
+        do 3 eexists. split; [reflexivity|]. split; auto.
+        pose proof (inv_hdr _ _ HI) as Hh. pose proof (inv_hval _ _ HI) as Hv.
+        destruct (t_root t) as [i0 s0 f0]. simpl in Hh. subst s0.
+        split; [eapply hdr_ins; eauto|]. split; auto. rewrite (hdr_ins_info _ _ _ _ _ _ _ _ Hne I). exact Hv.
     - do 3 eexists. split; [reflexivity|]. destruct HI; auto. }
-  destruct X as [r1 [p [nid [E [W [S O]]]]]]. rewrite E.
+  destruct X as [r1 [p [nid [E [W [S [O HV1]]]]]]]. rewrite E.
   assert (B : Inv {| t_root := r1; t_len := t_len t; t_next := nid; t_iters := t_iters t |} d).
-  { apply inv_same_obs; [exact HI|exact W|exact S|]. intro q. rewrite O. reflexivity. }
+  { apply inv_same_obs; [exact HI|exact W|exact S|exact HV1|]. intro q. rewrite O. reflexivity. }
   destruct (get_at r1 p) as [[i sg fc]|]; [|exact B].
   destruct (existsb _ (n_nots i)); [exact B|]. simpl.
   unfold set_root. simpl. apply (inv_same_obs _ d _ B).
   - apply all_upd; auto; intros; apply wfi_nots; assumption.
   - rewrite upd_seg. exact S.
+  - rewrite upd_root_val by reflexivity. exact HV1.
   - intro q. simpl. apply upd_any. intros. simpl. auto.
 Qed.
 
@@ -82,11 +89,13 @@ Proof.
   match goal with |- context [release ?r p] => set (r1 := r) end.
   assert (W1 : all_t wfi r1).
   { apply all_upd; [apply (inv_wf _ _ HI)|]. intros. apply wfi_nots. assumption. }
-  pose proof (rel_ok p r1 true W1) as R. unfold release. destruct (rel_t r1 p true) as [r'|].
+  pose proof (rel_ok p r1 true W1) as R. pose proof (rel_info p r1 true) as RI.
+  unfold release. destruct (rel_t r1 p true) as [r'|].
   2:{ destruct R as [_ X]. discriminate. }
   destruct R as [R1 [R2 R3]].
   pose proof (inv_same_obs t d r' HI R2) as Z. unfold set_root. simpl. apply Z.
   - rewrite R3. unfold r1. rewrite upd_seg. apply (inv_hdr _ _ HI).
+  - rewrite RI. unfold r1. rewrite upd_root_val by reflexivity. apply (inv_hval _ _ HI).
   - intro q. rewrite R1. unfold r1. apply upd_any. intros. simpl. auto.
 Qed.
 
